@@ -24,6 +24,7 @@ static void send_hello_cb(void *network_interface) {
         }
     }
     vp_logf("H %d %llu %d %d %d\n", f->idx, (unsigned long long)vp_now_ms, valid, incomplete, f->in_tick);
+    vp_now_ms += (uint64_t)vp_opt_hello_cost;      /* transmitting the Hello takes time */
 }
 
 void vh_flow_ensure(vp_iface *f) {
